@@ -99,6 +99,11 @@ def units(tier, seed):
             kk += 1
             descs.append(dict(engines=list(eng), gens=1, box=box, obj="lin_corner", maximize=bool(kk % 2), Mh=3, seed=s + kk % 3, sprout={"kind": ("simple", "nbc")[kk % 2], "L": 2},
                               std_factor=(2.0, 3.5)[kk % 2], loc_method=("l-bfgs-b", "L-BFGS-B")[kk % 2]))
+    # penalty objectives (+-inf on part of the box) with the DE family, whose memories / weights are computed from fitness differences
+    for eng in [e for e in shapes_h1() + shapes_h2() if any(v in ("SHADE", "DE", "DEd") for v in e)]:
+        for mx in (False, True):
+            kk += 1
+            descs.append(dict(engines=list(eng), gens=3, box=("B_asym", "B_dec")[kk % 2], obj="infhole", maximize=mx, Mh=4, seed=s + kk % 3, sprout={"kind": ("simple", "nbc")[kk % 2], "L": 2}))
     if tier == "thorough":
         for k, eng in enumerate(shapes_h3_all()):
             descs.append(dict(engines=list(eng), gens=1 + k % 2, box=("B_asym", "B_dec", "B_3d")[k % 3], obj=("lin_corner", "sphere_in")[k % 2],
